@@ -10,7 +10,7 @@ RULE = ("S-syn listings x rules of all operator kinds (positives and near misses
         "settings; first-mode list == all-mode list[:1]; address-only element == text before '::' of the corresponding "
         "full-text element; no mode raises unless all do. Hook H1 (wrapper around MatchedObserver.finalize installed from the "
         "harness): observer.matched == bool(observer.addr_list) at finalize, and the hit events seen at regex_matched equal "
-        "the returned list. Binary inputs are covered by the same relations in C15. Non-trivial = the rule is found in at "
+        "the returned list. A binary stratum runs the same 8 modes on harness-built ELF objects. Non-trivial = the rule is found in at "
         "least one mode; distinct = (rule, listing).")
 FLOOR = {"quick": 150, "thorough": 2000}
 ANCHOR_HINTS = ["match.py", "consumer", "matched_observers"]
@@ -101,17 +101,46 @@ def install():
         _installed = True
 
 
+def binary_stratum(ctx, ws, n):
+    from jv import objd, refline
+    rng = ctx.rng
+    for _ in range(n):
+        blob, secs, bits = objd.random_object(rng, size=(40, 300))
+        op = ws.write("o.bin", blob)
+        rc, out, _ = objd.disassemble(op)
+        rin = [ri for ri in refline.read_listing(out)[0] if ri.parsed.mnemonic.isalnum()] if rc == 0 else []
+        if not rin:
+            continue
+        k = rng.randrange(len(rin))
+        pattern = [ri.parsed.mnemonic for ri in rin[k:k + rng.randint(1, 2)]]
+        if rng.random() < 0.2:
+            pattern.append("zzzz")
+        text = real.dump_rule({"pattern": pattern})
+        rp = ws.write("rule.yaml", text)
+        res, ev = eight_modes(ctx, ws, rp, op, binary=True)
+        case = {"rule": text, "object_b64": __import__("base64").b64encode(blob).decode(), "desc": "binary"}
+        check_relations(ctx, case, res, ev)
+        found = any(r[0] == "ok" and bool(r[1]) for r in res.values())
+        ctx.case(("c12-bin", text, __import__("hashlib").sha256(blob).hexdigest()), found, stratum="binary/" + ("found" if found else "not found"))
+
+
 def run_shard(ctx):
     install()
     for m in REC.missing:
         ctx.event("hook_missing:" + m)
     d = drive.Driver(ctx, feat, flags="random", styles=("mixed", "runs", "tiny", "dups"), judge_model=False, extra=monitor)
     d.loop(700, 20000)
+    binary_stratum(ctx, d.ws, ctx.share(64, 2000))
 
 
 def replay(ctx, case):
     install()
     ws = real.Workspace()
+    if case.get("object_b64"):
+        op = ws.write("o.bin", __import__("base64").b64decode(case["object_b64"]))
+        res, ev = eight_modes(ctx, ws, ws.write("rule.yaml", case["rule"]), op, binary=True)
+        check_relations(ctx, case, res, ev)
+        return
     prep = dsl.prep_from_case(ws, case)
 
     class D:
